@@ -339,7 +339,8 @@ class Telomere:
 
     def _enter_senescence(self, reason: SenescenceReason):
         """Enter senescence state."""
-        if self._phase in (LifecyclePhase.SENESCENT, LifecyclePhase.APOPTOTIC, LifecyclePhase.TERMINATED):
+        if self._phase != LifecyclePhase.ACTIVE:
+            # Only an active lifecycle can become senescent (in particular not a never-started one)
             return
 
         self._senescence_reason = reason
